@@ -5,11 +5,13 @@ TB_COMMON = [
     "no axioms declared by the development (grep gate on every run); Print Assumptions output of every property theorem recorded in this file",
     "two ties to /repo, both checked on every run: (1) source-tie theorems (proofs/Tie*.v) proving that the Gallina translation of the current Go source computes what the hand-written model computes, for all inputs; "
     "(2) differential runs of the real Go code (harness built from /repo's working tree with -tags verif) against the model on generated inputs - generator reach bounds this second tie, which also covers the code outside the translated files",
-    "translator /verif/translate: main.go reads constants and wiring expressions into coq/Extracted.v; fn.go translates frameloop.go, motionprocessor.go, motion.go, "
-    "throttled_recorder.go and loglimiter.go (methods and constructors) syntactically into coq/translated/*.v on every run - trusted to be a faithful reading of the Go subset "
-    "(int as Z without overflow, frames as handles, slices by value, left-to-right evaluation, defer order); every call leaving the translated files is an external call whose meaning "
-    "is given by the hand-written handlers model/*Ext.v (modelling assumptions, validated by running translated code + handler, hand-written model and the real Go code on the same inputs)",
-    "Go runtime/stdlib trusted; int overflow at 2^63 out of scope",
+    "translator /verif/translate (Go over go/ast, ~4000 lines): main.go reads constants and wiring expressions into coq/Extracted.v; fn.go and its companion files translate, function by function, "
+    "frameloop.go, motionprocessor.go, motion.go, motionconfig.go, throttled_recorder.go, throttled_event_recorder.go, throttle/config.go, recorderconfig.go, loglimiter.go, headerinfo.go, "
+    "cmd/thermal-recorder/{main.go (handleConn, frameParser, runMain's start-up and accept loop), cptvfilerecorder.go, boson.go, snapshot.go, service.go, config.go}, cmd/thermal-writer/thermalraw.go and "
+    "cmd/leptond/main.go (the sender) syntactically into coq/translated/*.v on every run - trusted to be a faithful reading of the Go subset "
+    "(int as Z without overflow, frames as handles, slices by value, left-to-right evaluation, defer order; constructs it does not know are refused loudly); every call leaving the translated code is an external call whose meaning "
+    "is given by the hand-written handlers model/*Ext.v (modelling assumptions, validated by running translated code + handler, hand-written model and the real Go code on the same inputs; a call a handler has no clause for is logged as a bad call, never a silent no-op)",
+    "Go runtime/stdlib and the libraries (go-cptv, lepton3, ratelimit, window, go-config, yaml, dbus) trusted / hand-modelled; int overflow at 2^63 out of scope; thorough tier: coqchk -o on the property's .vo",
 ]
 
 PROC_TB = TB_COMMON + [
@@ -114,7 +116,7 @@ PROPS = {
                     "GOMAXPROCS in {1,2,4,16}, random read segmentations (1 byte .. several frames), truncated last frame; every third case is ONE writer process serving three connections in a row "
                     "(the camera reconnects at once, the second time as a camera with another frame size), each connection judged like a single one from the files that appeared while it was served; lag stage: 600-800 frames of 128 KB with every write system call of the daemon "
                     "delayed 0.7 s by strace so that the 256-deep queue fills and drains (judged by the harness' own CPTR parser: files too large for Coq); rotation stage: one connection kept open for 63 s "
-                    "(240-280 small frames trickling in) so that the writer starts a second file after newFileInterval, then the camera disconnects: at least two files, all frames once, in order, flushed; non-trivial = at least 2 frames / backlog > 10 logged; distinct by (size, count, content seed)",
+                    "(240-280 small frames trickling in) so that the writer starts a second file after newFileInterval, then the camera disconnects: at least two files, all frames once, in order, flushed; non-trivial = at least 2 frames / backlog > 10 logged; distinct by (size, count, content seed) || reconnection stages: one process, 34-41 connections of a 60 fps camera, and 258-267 connections (more than the 256 buffers a connection circulates), handleConn must return within 30 s of the disconnect; every third WRITER case is one process serving three connections (also accepted WITHOUT waiting for the previous writer goroutine), frame sizes differ || race stage: the writer built with the Go race detector, a burst, 5.6 s of silence, disconnect: no data race reported",
             "trusted_base": TB_COMMON + ["Go channels are FIFO and close() delivers buffered items first; bufio/os file writes; an unused file name is picked per file (fix d06182c)"]},
     "C10": {"stages": [{"harness": "FILEREC", "corr": "corr.C10", "n": {"quick": 1, "thorough": 1}, "shard": 40},
                        {"harness": "RECHDR", "corr": "corr.C18lag", "n": {"quick": 12, "thorough": 200}, "shard": 50}],
@@ -125,7 +127,7 @@ PROPS = {
             "rule": "3 scenarios (5 in the thorough tier, with 400-frame recordings that flush the scratch file) on the real CPTVFileRecorder (motion recorder: two finished + one open recording; "
                     "constant recorder; Stop() on connection loss): one case per (system call name, k): the driver is killed on entering that call, the tree is listed and every .cptv decoded, the real "
                     "deleteTempFiles runs in a fresh process, listed and decoded again; one case per observation of a concurrent observer; one namespace-trace case per scenario; "
-                    "non-trivial = killed with temporaries present; distinct by (scenario, system call, k) || failed-header stage: the real recorder with a configured device name of 256 / 300 bytes (the CPTV header cannot be written): every StartRecording must fail, a following StopRecording must not give anything a .cptv name, the start-up clean-up removes what is left (header-failure runs); and with valid names: sequences of recordings with starts failing at file creation, every finished file decoded",
+                    "non-trivial = killed with temporaries present; distinct by (scenario, system call, k) || failed-header stage: the real recorder with a configured device name of 256 / 300 bytes (the CPTV header cannot be written): every StartRecording must fail, a following StopRecording must not give anything a .cptv name, the start-up clean-up removes what is left (header-failure runs); and with valid names: sequences of recordings with starts failing at file creation, every finished file decoded || a kill scenario with TWO recorders on one directory (a test recording made while a motion recording is open: an unfinished file older than a finished one), one whose output directory is a symbolic link; one recording of 65 600 frames followed at once by the next",
             "trusted_base": TB_COMMON + ["strace 6.x inject=...:signal=KILL delivers the kill on entry of the selected system call; power-loss durability, partial write() calls and disk-full are not covered; "
                                          "distinct recordings get distinct millisecond time stamps (hypothesis wf_calls; the harness waits 2 ms between recordings)",
                                          "go-cptv's reader is the decoder: a file 'decodes' if every frame reads without error up to EOF and the count equals the header's NumFrames"]},
@@ -138,7 +140,7 @@ PROPS = {
                           "a reported race outside the table is a violation, the four in it are known findings.",
             "rule": "the real handleConn fed 300 (thorough: 3000) uniform-valued frames per connection over a unix socket while 6-8 requester goroutines call TakeSnapshot / TakeTestRecording / CameraInfo "
                     "(driver mode race): (1) ring capacity 11, two connections: snapshots must be uniform; (2) ring capacity 1 (known finding); (3) race-detector build, two connections: "
-                    "one case per racy variable reported; non-trivial = more than 100 snapshots taken / a race reported; distinct by case kind",
+                    "one case per racy variable reported; non-trivial = more than 100 snapshots taken / a race reported; distinct by case kind || test-recording stage (driver mode snapseq, 4 shapes: continuous recorder on; dynamic threshold off + throttle on with a 6 s bucket; the camera reconnecting with ONE request per connection at the same frame count; a scene that is motion all the time so that test recordings overlap motion recordings): one finished file of exactly 21 consecutive frames per request, background = the detector's || sequential freshness probe also after a BAD frame || snapshot-source stage: the C12 fault histories on the real processor, after every accepted frame GetRecentFrame() hands back that frame",
             "trusted_base": TB_COMMON + ["Go memory model effects beyond sequential consistency and scheduler fairness are outside the model; the race detector finds only races that occur in the run; "
                                          "race reports are classified into variables by the functions and source lines of the two top frames"]},
     "C11": {"stages": [{"harness": "E2E", "corr": "corr.E2E11", "n": {"quick": 16, "thorough": 200}, "shard": 1},
@@ -164,7 +166,7 @@ PROPS = {
                           "the YAML codec enters as validated hypotheses; tied by the real ReadHeaderInfo on arbitrary segmentations and by end-to-end sessions through the real handleConn.",
             "rule": "header stage: camera descriptions with YAML-hostile strings (1.2, true, ~, leading/trailing spaces, '#', ': ', unicode, empty) encoded by yaml.v1 Marshal of the map exactly as cmd/leptond does, read by the real "
                     "ReadHeaderInfo from a reader returning arbitrary chunk sizes (1 byte .. 4096), with trailing data, plus EVERY truncation point || stream stage: end-to-end sessions: generated config.toml (min/max/preview secs or defaults, trigger frames, throttle off / transparent / impossible, constant recorder, window none / closed, min-disk-space 0 / huge, device id/name, location, 11 motion keys each written or left to the camera-model default for lepton3 / lepton3.5 / boson), camera header encoded as the camera daemon does, 60-180 frames (8x6..16x12, a flickering hot blob that appears/moves/disappears, FFC events, bad frames, 'clear' markers, extreme values) sent in random chunk sizes over a unix socket to the real ParseConfig + handleConn (driver binary), every finished .cptv decoded with the standard reader and compared with model/System.v: per file threshold, background, frame ids; frame contents (pixels, times, temperatures) and header view compared by the harness (compared projection: frame ids per file) || "
-                    "one probe of the known in-band-marker finding; non-trivial = split into more than one read / files produced; distinct by description + chunking",
+                    "one probe of the known in-band-marker finding; non-trivial = split into more than one read / files produced; distinct by description + chunking || reconnection stage: ONE daemon process serving 34-41 (thorough: 70) connections of a 60 / 30 / 9 fps camera in a row: every connection served like the first, the process must not die || header lines of 4095..4098 bytes, values other YAML dialects read as non-strings, long and multi-line values || a bad frame sent in one piece with the two items after it",
             "trusted_base": TB_COMMON + ["yaml.v1 Marshal/Unmarshal: assumed decode(encode d) = d and encoder output ends with newline and has no blank line (header_text_ok evaluated on every generated header); bufio/io.ReadFull semantics = byte stream"]},
     "C15": {"stages": [{"harness": "DET15", "corr": "corr.C15", "corr_src": "corr.C15src", "n": {"quick": 300, "thorough": 4000}, "shard": 20},
                        {"harness": "E2E", "corr": "corr.E2E15", "n": {"quick": 6, "thorough": 150}, "shard": 1},
@@ -179,6 +181,6 @@ PROPS = {
                        {"harness": "RECHDR", "corr": "corr.C18lag", "n": {"quick": 3, "thorough": 40}, "shard": 50}],
             "theorems": "props/C17.v",
             "rule": (PROC_RULE % "fault-free continuous and test sinks, motion-sink refusals; compared projection: continuous and test sinks; spec S17c && S17t") +
-                    " || wiring: end-to-end sessions: generated config.toml (min/max/preview secs or defaults, trigger frames, throttle off / transparent / impossible, constant recorder, window none / closed, min-disk-space 0 / huge, device id/name, location, 11 motion keys each written or left to the camera-model default for lepton3 / lepton3.5 / boson), camera header encoded as the camera daemon does, 60-180 frames (8x6..16x12, a flickering hot blob that appears/moves/disappears, FFC events, bad frames, 'clear' markers, extreme values) sent in random chunk sizes over a unix socket to the real ParseConfig + handleConn (driver binary), every finished .cptv decoded with the standard reader and compared with model/System.v: per file threshold, background, frame ids; frame contents (pixels, times, temperatures) and header view compared by the harness || test recordings through the real wiring: service.TakeTestRecording() called after every k-th completed frame of a connection fed one uniform frame at a time (driver mode snapseq): one finished file per request holding exactly the 21 following frames, no temporaries left (compared projection of the sessions: frame ids of every file in constant-recordings/ and in the output directory - the continuous recorder tiles the stream and leaves the motion recorder's files alone - with throttling / window / disk refusals active on the motion recorder)",
+                    " || wiring: end-to-end sessions: generated config.toml (min/max/preview secs or defaults, trigger frames, throttle off / transparent / impossible, constant recorder, window none / closed, min-disk-space 0 / huge, device id/name, location, 11 motion keys each written or left to the camera-model default for lepton3 / lepton3.5 / boson), camera header encoded as the camera daemon does, 60-180 frames (8x6..16x12, a flickering hot blob that appears/moves/disappears, FFC events, bad frames, 'clear' markers, extreme values) sent in random chunk sizes over a unix socket to the real ParseConfig + handleConn (driver binary), every finished .cptv decoded with the standard reader and compared with model/System.v: per file threshold, background, frame ids; frame contents (pixels, times, temperatures) and header view compared by the harness || test recordings through the real wiring: service.TakeTestRecording() called after every k-th completed frame of a connection fed one uniform frame at a time (driver mode snapseq): one finished file per request holding exactly the 21 following frames, no temporaries left (compared projection of the sessions: frame ids of every file in constant-recordings/ and in the output directory - the continuous recorder tiles the stream and leaves the motion recorder's files alone - with throttling / window / disk refusals active on the motion recorder) || recorder stage: the real CPTVFileRecorder: sequences of recordings with failing starts, a device name the header cannot hold, and one recording of 65 600 frames followed at once by the next: every finished file decodes to exactly its frames",
             "trusted_base": PROC_TB},
 }
